@@ -336,6 +336,8 @@ def run(ctx):
         ok = n is not None and n[0] == "call" and "from_bits_truncate" in str(n[1]) and n[2][0][0] == "call" and str(n[2][0][1]).endswith("ElfSectionInner>::flags")
         ctx.check(ok, "E5", "ElfSection::flags", "flags() = ElfSectionFlags::from_bits_truncate(get().flags())", fl[0].get("span", ""), how=G.show(rt)[:160], why=G.show(rt)[:300])
     st = F.find1(impl_self_name="ElfSection", name="section_type", impl_trait=None)
+    if not st:
+        ctx.fail("ANCHOR", "ElfSection::section_type", "ElfSection::section_type exists", "", "missing")
     if st:
         c20.table_check(ctx, "E5", "section_type", st, S.ELF_SECTION_TYPES, "ElfSectionType", domain=U32, other=(S.ELF_SECTION_RANGES, S.ELF_SECTION_OTHER))
     from . import tagtables as TT_
